@@ -462,8 +462,45 @@ var rR9k = RuleRef{Name: "R9k", Doc: "KEYS: every key placed in the reply passed
 		c.Undecided("R9k", "anchors keys executor / util.PattenMatch / resp.MakeBulkData")
 		return
 	}
-	of := c.orderFlow(fn, nil, true, "T|call:PattenMatch")
+	of := c.orderFlow(fn, nil, true, "T|call:PattenMatch", "C|Keys", "C|KeyVals")
 	n := 0
+	// every non-error reply is computed from the keyspace: no shortcut answers for "hopeless" patterns
+	for _, b := range fn.Blocks {
+		if len(b.Instrs) == 0 {
+			continue
+		}
+		ret, ok := b.Instrs[len(b.Instrs)-1].(*ssa.Return)
+		if !ok || len(ret.Results) == 0 {
+			continue
+		}
+		isErr := true
+		for _, rv := range retResults(ret)[0] {
+			maker := ""
+			backslice(rv, func(v ssa.Value) bool {
+				if call, ok := v.(*ssa.Call); ok {
+					if maker == "" {
+						maker = callName(call)
+					}
+					return false
+				}
+				return true
+			})
+			if !strings.HasPrefix(maker, "MakeError") && !strings.HasPrefix(maker, "MakeWrongType") {
+				isErr = false
+			}
+		}
+		if isErr {
+			continue
+		}
+		states, live := of.States(ret)
+		okAll := live
+		for _, st := range states {
+			if !st["C|Keys"] && !st["C|KeyVals"] {
+				okAll = false
+			}
+		}
+		c.Add("R9k", fnName(fn), "a non-error reply is returned only after the keyspace was enumerated", ret.Pos(), okAll, "a path answers without looking at the keys (a pattern judged hopeless by some other test than the matcher)")
+	}
 	for _, b := range fn.Blocks {
 		for _, in := range b.Instrs {
 			call, ok := in.(*ssa.Call)
@@ -783,6 +820,40 @@ var rR20s = RuleRef{Name: "R20s", Doc: "database selection: the selection store 
 		}
 	}
 	c.Add("R20s", fnName(pcj), "cluster configuration forces a single database", pcj.Pos(), forces, "Databases must be set to 1 in cluster mode: the apply loop has one selection for all clients")
+	// ... on every successful path, and unconditionally (a configured count must not survive into cluster mode)
+	{
+		fl := &Flow{Fn: pcj, Must: true, Entry: Set{}, EdgeOK: func(from, to *ssa.BasicBlock) bool { return !IsErrEdge(from, to) },
+			Transfer: func(in ssa.Instruction, s Set) (Set, bool) {
+				if noReturnCall(in) {
+					return nil, true
+				}
+				if st, ok := in.(*ssa.Store); ok {
+					if fa, ok := st.Addr.(*ssa.FieldAddr); ok && fieldName(fa) == "Databases" {
+						if k, ok := constInt(st.Val); ok && k == 1 {
+							s["one"] = true
+						} else {
+							delete(s, "one")
+						}
+					}
+				}
+				return s, false
+			}}
+		fl.Run()
+		all, nret := true, 0
+		for _, b := range pcj.Blocks {
+			for _, in := range b.Instrs {
+				if ret, ok := in.(*ssa.Return); ok {
+					if s, live := fl.Before(ret); live {
+						nret++
+						if !s["one"] {
+							all = false
+						}
+					}
+				}
+			}
+		}
+		c.Add("R20s", fnName(pcj), "every successful return of the cluster configuration leaves Databases == 1", pcj.Pos(), all && nret > 0, "a path applies the cluster configuration and keeps another database count: SELECT would then be accepted, and in cluster mode the selection is one state shared by all clients")
+	}
 	for _, b := range setup.Blocks {
 		for _, in := range b.Instrs {
 			if ci, ok := in.(*ssa.Call); ok && callee(ci) == pcj {
